@@ -55,7 +55,7 @@ inline void selftest_bigint(T &t) {
     t.ok("from_dec", u_from_dec("18446744073709551616") == u_shl(U(1), 64));
     t.ok("to_hex", u_to_hex(u_from_dec("4886718345")) == "0123456789");
     t.ok("bitlen", u_bitlen(U(0)) == 0 && u_bitlen(U(1)) == 1 && u_bitlen(P25519()) == 255 && u_bitlen(L25519()) == 253);
-    t.ok("small powmod", u_powmod(U(3), U(200), U(1000007)) == U(ref::u_low64(u_powmod(U(3), U(200), U(1000007)))) && u_powmod(U(2), U(10), U(1000)) == U(24));
+    t.ok("small powmod", u_powmod(U(2), U(10), U(1000)) == U(24) && u_powmod(U(5), U(117), U(19)) == U(1) && u_powmod(U(7), U(0), U(13)) == U(1));
     t.ok("small invmod", u_mulmod(u_invmod_prime(U(12345), U(1000003)), U(12345), U(1000003)) == U(1));
     {
         bool borrow = false;
@@ -252,7 +252,7 @@ inline void selftest_ed25519(T &t) {
         e[31] |= 0x80;
         d = pt_decode_ex(e);
         t.ok("dec noncanonical neg zero", d.ok_lenient && d.y_noncanonical && d.neg_zero);
-        // (c) not on curve: y = 2 has no x (checked: 2 is the first value in libsodium-independent enumeration that fails)
+        // (c) not on curve: roughly half of the small y values have no x
         int fails_c = 0, succ = 0;
         for (uint64_t y = 2; y < 40; y++) {
             d = pt_decode_ex(u_to_le(U(y), 32));
@@ -311,10 +311,7 @@ inline void selftest_ed25519(T &t) {
         VerifyInfo vi = ed25519_verify_info(cat(sub(sig, 0, 32), s2), msg, pk);
         t.ok("S+L", !vi.s_canonical && vi.cofactored_eq && vi.cofactorless_eq);
         // R + T8: cofactored equation holds, cofactorless does not
-        Pt R;
-        bool canon;
-        pt_decode(sub(sig, 0, 32), R, canon);
-        // (changing R changes h, so build the signature from scratch with a known nonce instead)
+        // (changing R changes h, so the signature is built from scratch with a known nonce)
         U a = u_from_le(ed25519_clamp(sub(sha512(seed), 0, 32)));
         U r = sc_reduce(u_from_le(rng.bytes(64)));
         Bytes Rt = pt_encode(pt_add(pt_mul(r, ED_B()), torsion_points()[1]));
@@ -488,6 +485,8 @@ inline void selftest_h2c(T &t) {
         Bytes longdst(256, 'X'), dst255(255, 'X');
         t.eq("xmd oversize dst 256", expand_message_xmd(H_SHA256, m, longdst, 48), expand_message_xmd(H_SHA256, m, sha256(cat(str("H2C-OVERSIZE-DST-"), longdst)), 48));
         t.eq("xmd oversize dst 512", expand_message_xmd(H_SHA512, m, longdst, 48), expand_message_xmd(H_SHA512, m, sha512(cat(str("H2C-OVERSIZE-DST-"), longdst)), 48));
+        t.ok("clobbered-DST model only differs for oversize DST", expand_message_xmd_oversize_dst_clobbered(H_SHA512, m, dst255, 96) == expand_message_xmd(H_SHA512, m, dst255, 96) &&
+                                                                       expand_message_xmd_oversize_dst_clobbered(H_SHA512, m, longdst, 96) != expand_message_xmd(H_SHA512, m, longdst, 96));
         t.ok("xmd dst 255 is not oversize", expand_message_xmd(H_SHA256, m, dst255, 48) != expand_message_xmd(H_SHA256, m, sha256(cat(str("H2C-OVERSIZE-DST-"), dst255)), 48));
         // Elligator 2 output is on curve25519 and the rational map lands on edwards25519, for a few field elements
         bool ok = true;
